@@ -211,9 +211,25 @@ pub fn run_admin(case: &AdminCase, dir: &Path) -> CaseResult {
 	let probe = dir.join("probe");
 	copy_dir(&img, &probe).map_err(|e| Failure::new("harness-io", e.to_string()))?;
 	let rec = recover_and_check(&sc2, &info, &sp, &probe, dir, 0)?;
-	let p = rec.prefix_index;
+	let mut p = rec.prefix_index;
+	if rec.candidates.len() > 1 {
+		// several prefixes read identically (e.g. reference counts of tree roots / btree keys):
+		// the stored counts decide which one the directory really holds
+		let mut it = rec.interp;
+		it.ensure_room_for_close()?;
+		it.close();
+		for cand in rec.candidates.iter() {
+			adopt_prefix(&mut it, &info, *cand);
+			if crate::layout::check_dir_opts(&it.cfg, &it.dir, Some(&it), true).is_ok() {
+				p = *cand;
+				break
+			}
+		}
+		out.label("ambiguous-prefix-resolved-by-layout");
+	} else {
+		drop(rec);
+	}
 	let base_model = info.prefix[p].clone();
-	drop(rec);
 	let _ = std::fs::remove_dir_all(&probe);
 	// 3. the administration call on the image
 	let mut options = sc.cfg.options(&img, false);
